@@ -34,4 +34,6 @@ for d in sorted(glob.glob('/verif/seeded/*/')):
     stw = (st.get('what', '') if isinstance(st, dict) else str(st)).replace('|', '\\|')
     r = reg.get(name, ('?', ''))
     now = ('VIOLATION `%s`' % r[1]) if r[0] == 'exit=1' else r[0]
+    if str(m.get('status', '')).startswith('obsolete'):
+        now = 'not applicable any more: ' + m['status']
     print("| %s | %s | %s | %s | %s | %s | %s |" % (name, prop, needs, ' '.join(caught) or '-', ' '.join(missed) or '-', stw or '-', now))
